@@ -417,11 +417,34 @@ func extIndex(fr *frame, args []value) value {
 
 // ---------------------------------------------------------------- rand
 
-func (i *interpreter) randVar(kind string, s sym.Sort) *sym.Term {
+// randEnt is one logged draw: same seed = same sequence of outcomes for the same sequence of
+// requests (kind, width, bound).
+type randEnt struct {
+	kind  string
+	sort  sym.Sort
+	bound *sym.Term
+	t     *sym.Term
+}
+
+// randVar returns the outcome of the next draw. Between verifRandMark and verifRandRewind the
+// draws are logged; after verifRandRewind the logged outcomes are delivered again for as long as
+// the requests are the same as in the first run (the generator re-seeded with the same seed); a
+// different request, or the end of the log, ends the replay and later draws are fresh again.
+func (i *interpreter) randVar(kind string, s sym.Sort, bound *sym.Term) *sym.Term {
 	i.noSpec("rand")
 	i.randDraws++
 	if i.cfg.MaxRand > 0 && i.randDraws > i.cfg.MaxRand {
 		panic(pathAbort{kind: abBound, msg: fmt.Sprintf("more than %d random draws", i.cfg.MaxRand)})
+	}
+	if i.randReplay >= 0 {
+		if i.randReplay < len(i.randLog) {
+			e := i.randLog[i.randReplay]
+			if e.kind == kind && e.sort == s && i.sameBound(e.bound, bound) {
+				i.randReplay++
+				return e.t
+			}
+		}
+		i.randReplay = -1
 	}
 	// the name encodes the sort: names are reused across paths and must keep their sort
 	pfx := "rndf"
@@ -430,7 +453,23 @@ func (i *interpreter) randVar(kind string, s sym.Sort) *sym.Term {
 	}
 	t := i.ctx.Var(i.freshName(pfx), s)
 	i.tape = append(i.tape, tapeVar{kind: kind, term: t, name: t.Name})
+	if i.randLogging {
+		i.randLog = append(i.randLog, randEnt{kind, s, bound, t})
+	}
 	return t
+}
+
+func (i *interpreter) sameBound(a, b *sym.Term) bool {
+	if a == nil || b == nil {
+		return a == b
+	}
+	if a == b {
+		return true
+	}
+	if a.Sort != b.Sort {
+		return false
+	}
+	return i.decide(i.ctx.Eq(a, b))
 }
 
 func extRandIntn(fr *frame, args []value) value {
@@ -445,21 +484,21 @@ func extRandIntn(fr *frame, args []value) value {
 	if i.decide(i.ctx.BvSle(nt, i.ctx.BVC(w, 0))) {
 		panic(targetPanic{i.strPanic("invalid argument to Intn")})
 	}
-	r := i.randVar("rand.int", sym.BV(w))
+	r := i.randVar("rand.int", sym.BV(w), nt)
 	i.addPC(i.ctx.BvUlt(r, nt))
 	return i.termToGoDyn(r, n, true)
 }
 
 func extRandInt(fr *frame, args []value) value {
 	i := fr.i
-	r := i.randVar("rand.int", sym.BV(64))
+	r := i.randVar("rand.int", sym.BV(64), nil)
 	i.addPC(i.ctx.BvSle(i.ctx.BVC(64, 0), r))
 	return r
 }
 
 func extRandFloat64(fr *frame, args []value) value {
 	i := fr.i
-	r := i.randVar("rand.f64", sym.Real)
+	r := i.randVar("rand.f64", sym.Real, nil)
 	i.addPC(i.ctx.Le(i.ctx.RealI(0), r))
 	i.addPC(i.ctx.Lt(r, i.ctx.RealI(1)))
 	return i.finite(r)
@@ -467,14 +506,14 @@ func extRandFloat64(fr *frame, args []value) value {
 
 func extRandExp(fr *frame, args []value) value {
 	i := fr.i
-	r := i.randVar("rand.f64", sym.Real)
+	r := i.randVar("rand.f64", sym.Real, nil)
 	i.addPC(i.ctx.Lt(i.ctx.RealI(0), r))
 	return i.finite(r)
 }
 
 func extRandNorm(fr *frame, args []value) value {
 	i := fr.i
-	r := i.randVar("rand.f64", sym.Real)
+	r := i.randVar("rand.f64", sym.Real, nil)
 	return i.finite(r)
 }
 
@@ -488,7 +527,7 @@ func extRandPerm(fr *frame, args []value) value {
 	out := make([]value, n)
 	ts := make([]*sym.Term, n)
 	for k := 0; k < n; k++ {
-		r := i.randVar("rand.int", sym.BV(64))
+		r := i.randVar("rand.int", sym.BV(64), i.ctx.BVC(64, uint64(n)))
 		i.addPC(i.ctx.BvUlt(r, i.ctx.BVC(64, uint64(n))))
 		for j := 0; j < k; j++ {
 			i.addPC(i.ctx.Not(i.ctx.Eq(r, ts[j])))
@@ -507,7 +546,7 @@ func extRandShuffle(fr *frame, args []value) value {
 		panic(targetPanic{i.strPanic("invalid argument to Shuffle")})
 	}
 	for k := n - 1; k > 0; k-- {
-		r := i.randVar("rand.int", sym.BV(64))
+		r := i.randVar("rand.int", sym.BV(64), i.ctx.BVC(64, uint64(k+1)))
 		i.addPC(i.ctx.BvUlt(r, i.ctx.BVC(64, uint64(k+1))))
 		j := i.concretize(r, false, "shuffle index")
 		call(i, fr, 0, args[1], []value{k, int(j)})
